@@ -18,9 +18,24 @@ def _to_float(rows, nan=()):
     return a
 
 
-def call_detect(data, thr, npix, conn, mask):
+LAYOUTS = ('C', 'F', 'strided', 'C')
+
+
+def relayout(a, layout):
+    """the same values in another memory layout (labels must follow the raster order of the array, not of its memory)"""
+    if not isinstance(a, np.ndarray) or a.ndim != 2 or layout == 'C':
+        return a
+    if layout == 'F':
+        return np.asfortranarray(a)
+    big = np.zeros((a.shape[0] * 2 + 1, a.shape[1] * 3 + 2), dtype=a.dtype)
+    big[1::2, 2::3][:a.shape[0], :a.shape[1]] = a
+    return big[1::2, 2::3][:a.shape[0], :a.shape[1]]
+
+
+def call_detect(data, thr, npix, conn, mask, layout='C'):
     from photutils.segmentation import detect_sources
     from photutils.utils.exceptions import NoDetectionsWarning
+    data, thr, mask = relayout(data, layout), relayout(thr, layout), relayout(mask, layout)
     with warnings.catch_warnings(record=True) as w:
         warnings.simplefilter('always')
         try:
@@ -50,8 +65,10 @@ def replay_case(c):
             mask[r, cc] = True
     thr2d = np.array(c['thr'], dtype=float)
     thr = float(thr2d[0, 0]) if c['thrkind'] in ('c0', 'c1') else thr2d
-    got = call_detect(data, thr, c['npix'], c['conn'], mask)
-    sig = {'conn': c['conn'], 'npix': c['npix'], 'thrkind': c['thrkind'], 'badkind': c['badkind']}
+    import zlib
+    layout = LAYOUTS[zlib.crc32(json.dumps([c['data'], c['npix'], c['conn']]).encode()) % 4]
+    got = call_detect(data, thr, c['npix'], c['conn'], mask, layout)
+    sig = {'conn': c['conn'], 'npix': c['npix'], 'thrkind': c['thrkind'], 'badkind': c['badkind'], 'layout': layout}
     out = []
     if got['raised']:
         return [('raises', sig, {'case': c, 'got': got})]
@@ -132,7 +149,7 @@ def record_structured(seed, rng):
     npix = max(1, rng.choice(cands))
     rows = a.tolist()
     thr_rows = [[0] * w for _ in range(h)]
-    got = call_detect(a.astype(float), 0.0, npix, conn, None)
+    got = call_detect(a.astype(float), 0.0, npix, conn, None, LAYOUTS[seed % 4])
     return {'id': seed, 'kind': 'detect', 'data': rows, 'thr': thr_rows, 'nan': [], 'mask': [], 'conn': conn, 'npix': npix,
             'raised': got['raised'], 'none': got.get('none', False), 'warned': got.get('warned', False),
             'out': got.get('out', [[0]]), 'labels': got.get('labels', []), 'slices': got.get('slices', []), 'areas': got.get('areas', [])}
@@ -219,7 +236,7 @@ def record_case(seed):
             except Exception as e:  # noqa
                 got = {'raised': True, 'exc': repr(e)}
     else:
-        got = call_detect(data, thr, npix, conn, m)
+        got = call_detect(data, thr, npix, conn, m, LAYOUTS[seed % 4])
     if neartie:
         rows = [[(v * 2 if abs(v) < INF else v) for v in r] for r in rows]
         thr_rows = [[2 * v - 1 for v in r] for r in thr_rows]
